@@ -49,7 +49,7 @@ type caseT struct {
 	NoPublisher  bool
 	NilPublisher bool  // AddHandler(..., publisher = nil, ...): outputs cannot be published either
 	CancelMid    int   // cancel the Run context after this many messages were emitted (-1 = never); the subscriber keeps delivering
-	Middlewares  []int // 0 identity, 1 append-output; registration order
+	Middlewares  []int // 0 identity, 1 append-output, 2 identity that turns "no outputs" into an empty non-nil slice (filtering middlewares do); registration order
 	HandlerLvl   []bool
 	Barrier      bool
 	Msgs         []behav
@@ -69,7 +69,7 @@ func genCase(t *rapid.T) caseT {
 	}
 	nm := rapid.IntRange(0, 2).Draw(t, "nMiddlewares")
 	for i := 0; i < nm; i++ {
-		c.Middlewares = append(c.Middlewares, rapid.IntRange(0, 1).Draw(t, "mwKind"))
+		c.Middlewares = append(c.Middlewares, rapid.SampledFrom([]int{0, 1, 1, 2}).Draw(t, "mwKind"))
 		c.HandlerLvl = append(c.HandlerLvl, rapid.Bool().Draw(t, "mwHandlerLevel"))
 	}
 	n := rapid.IntRange(1, 6).Draw(t, "nMessages")
@@ -221,6 +221,9 @@ func runCase(t *rapid.T, c caseT) {
 			o.Metadata.Set("src", tag)
 			outs = append(outs, o)
 		}
+		if len(outs) == 0 && b.Pad%2 == 1 {
+			outs = message.Messages{} // "nothing" as an empty slice rather than nil
+		}
 		switch b.Panic {
 		case 1:
 			panic("scripted panic " + tag)
@@ -255,6 +258,16 @@ func runCase(t *rapid.T, c caseT) {
 		if k == 0 {
 			mw = func(h message.HandlerFunc) message.HandlerFunc {
 				return func(msg *message.Message) ([]*message.Message, error) { return h(msg) }
+			}
+		} else if k == 2 {
+			mw = func(h message.HandlerFunc) message.HandlerFunc {
+				return func(msg *message.Message) ([]*message.Message, error) {
+					out, err := h(msg)
+					if len(out) == 0 {
+						out = make([]*message.Message, 0, 2) // nothing produced, said with an empty slice instead of nil
+					}
+					return out, err
+				}
 			}
 		} else {
 			appended++
